@@ -57,7 +57,8 @@ ops::Status ossOperationsFacet::StatusOf(const PictID pid) const {
   } else if (opHandle->broken) {
     return ops::Status::broken;
   } else if (!std::empty(*core.Src()(pid))) {
-    return opHandle->outdated ? ops::Status::outdated : ops::Status::done;
+    // Note: an attached document without translations was not produced by executing this operation
+    return opHandle->outdated || opHandle->translations == nullptr ? ops::Status::outdated : ops::Status::done;
   } else {
     return ops::Status::defined;
   }
@@ -106,8 +107,9 @@ bool ossOperationsFacet::IsTranslatable(PictID pid) {
 bool ossOperationsFacet::CheckTranslations(const PictID pid) {
   if (const auto* oldData = core.Src().DataFor(pid); oldData == nullptr) {
     return false;
+  } else if (operations.at(pid)->translations == nullptr) {
+    return false;
   } else {
-    assert(operations.at(pid)->translations != nullptr);
     return opProcs.at(operations.at(pid)->type)->CheckTranslations(*operations.at(pid)->translations, *oldData);
   }
 }
@@ -313,6 +315,9 @@ ossOperationsFacet::AggregateVersions(const PictID pid, ops::Result& opResult) c
 
   core.Src().UpdateSync(pid);
   const auto& opHandle = operations.at(pid);
+  if (opHandle->translations == nullptr) {
+    return std::nullopt; // Note: attached document is not a previous version of this result
+  }
   const auto versionTrans =
     opProcs.at(opHandle->type)->CreateVersionTranslation(opHandle->type, *opHandle->translations, *opResult.translation);
 
